@@ -36,9 +36,8 @@ func verifTrees(n int, allowNot bool) []*vSkel {
 	}
 	if allowNot {
 		for _, c := range verifTrees(n-1, allowNot) {
-			if c.op != 3 {
-				out = append(out, &vSkel{op: 3, l: c})
-			}
+			// nested negation included: not (not (P)) must mean P
+			out = append(out, &vSkel{op: 3, l: c})
 		}
 	}
 	return out
